@@ -120,10 +120,16 @@ def run_topo(ctx, lines, pend, pp, dp, mp, rng, ranks=None):
                 w[l]['A'] = 1
     objs, callseqs = [], []
     case = {'pp': pp, 'dp': dp, 'mp': mp, 'works': works}
+    # costs are floats in the library's signature: with prob. 0.3 the real objects get dyadic fractions c/8 (many below 1)
+    # while the model keeps the integers c — order, ties and sums are preserved exactly
+    scale = 8.0 if rng.random() < 0.3 else None
+    if scale:
+        case['cost_scale'] = '1/8'
     try:
         for loc in range(world):
             work = works[topo.get_coord(loc).pipe]
-            a, calls = build(topo, loc, work)
+            rwork = work if not scale else {l: {f: c / scale for f, c in fs.items()} for l, fs in work.items()}
+            a, calls = build(topo, loc, rwork)
             objs.append(a)
             callseqs.append(calls)
             if ranks is None or loc in ranks:
